@@ -363,6 +363,9 @@ def write_block(r, ctx, nfields=None, list_budget=None):
                     i = r.randrange(1, 62)
                 n = S.lookup(i, ctx.dyn)[0]
                 v = rand_value(r, n)
+                if r.random() < 0.25:
+                    v = S.lookup(i, ctx.dyn)[1]       # a literal that repeats the value stored under its name index
+                    tags.append("literal-equals-entry")
                 out += S.rep_literal(mode, n, v, i, hn, hv, red)
             else:
                 n, v, _ = rand_field(r, pool)
@@ -741,6 +744,8 @@ def gen_cost(r, k, base=6000):
         nm = names[ci % len(names)]
         L = 2 ** 40 if (ci // len(names)) % 2 == 0 else 65536
         n = base + r.randrange(0, base // 8)
+        if nm in ("long-plain-string", "long-huffman-string", "long-indexed-literal"):
+            n *= 6        # one long string: cheap per octet, so larger sizes to get above timing noise
         cmds = ["cost %s 1 %s" % (zs(L), hx(shapes[nm](m))) for m in (n, 2 * n, 4 * n)]
         cases.append({"family": "cost", "cmds": cmds, "meta": {"shape": nm, "n": n, "L": L}, "tags": [nm]})
     return cases
